@@ -2,7 +2,7 @@
 //! Monitors: panic monitor (incl. overflow / debug_assert panics in the `checked` lane) around a
 //! table of public fallible entry points driven with extreme arguments; validity monitor on every
 //! returned value; step monitor for `StrftimeItems`; hang watchdog (a single call that does not
-//! return within 20 s is reported with its input and the process exits 1).
+//! return within 15 s of its own thread CPU time is reported with its input and the process exits 1).
 
 use crate::gen;
 use crate::mon::{guard, h2, hstr, par_shards, Ctx, Local, Outcome, Report};
@@ -41,6 +41,8 @@ fn bi(n: &str) -> usize {
 
 struct Slot {
     started_ms: AtomicU64,
+    /// kernel thread id of the worker that owns the slot (0 if /proc is not available)
+    tid: AtomicU64,
     what: Mutex<String>,
 }
 
@@ -50,31 +52,69 @@ fn now_ms() -> u64 {
     std::time::SystemTime::now().duration_since(std::time::UNIX_EPOCH).map(|d| d.as_millis() as u64).unwrap_or(0)
 }
 
+/// Called by the worker thread that will use the slot.
 fn new_slot() -> &'static Slot {
-    let s: &'static Slot = Box::leak(Box::new(Slot { started_ms: AtomicU64::new(0), what: Mutex::new(String::new()) }));
+    let tid = std::fs::read_link("/proc/thread-self").ok().and_then(|p| p.file_name().and_then(|f| f.to_str().and_then(|t| t.parse::<u64>().ok()))).unwrap_or(0);
+    let s: &'static Slot = Box::leak(Box::new(Slot { started_ms: AtomicU64::new(0), tid: AtomicU64::new(tid), what: Mutex::new(String::new()) }));
     SLOTS.lock().unwrap().push(s);
     s
 }
 
+/// CPU time (user + system) consumed so far by one thread of this process, in milliseconds.
+fn thread_cpu_ms(tid: u64) -> Option<u64> {
+    let stat = std::fs::read_to_string(format!("/proc/self/task/{}/stat", tid)).ok()?;
+    // fields after the parenthesised command name: state is field 3, utime 14, stime 15
+    let rest = &stat[stat.rfind(')')? + 1..];
+    let f: Vec<&str> = rest.split_whitespace().collect();
+    let (ut, st) = (f.get(11)?.parse::<u64>().ok()?, f.get(12)?.parse::<u64>().ok()?);
+    Some((ut + st) * 10) // USER_HZ = 100
+}
+
+/// A call is a hang when it has burnt 15 s of CPU time of its own thread without returning: the
+/// verdict is taken on the thread's CPU clock, not on wall time, so a loaded or suspended machine
+/// cannot produce it. A call that is old on the wall clock but has not used CPU (starved, or /proc
+/// unavailable) makes the run inconclusive after 10 minutes.
 fn start_watchdog() {
-    std::thread::spawn(|| loop {
-        std::thread::sleep(std::time::Duration::from_millis(500));
-        let slots: Vec<&'static Slot> = SLOTS.lock().unwrap().clone();
-        for s in slots {
-            let t = s.started_ms.load(Ordering::Relaxed);
-            if t != 0 && now_ms().saturating_sub(t) > 20_000 {
+    std::thread::spawn(|| {
+        // per slot: (start stamp of the call being watched, thread CPU when first seen old)
+        let mut seen: std::collections::HashMap<usize, (u64, Option<u64>)> = std::collections::HashMap::new();
+        loop {
+            std::thread::sleep(std::time::Duration::from_millis(500));
+            let slots: Vec<&'static Slot> = SLOTS.lock().unwrap().clone();
+            for (i, s) in slots.iter().enumerate() {
+                let t = s.started_ms.load(Ordering::Relaxed);
+                if t == 0 || now_ms().saturating_sub(t) < 3_000 {
+                    seen.remove(&i);
+                    continue;
+                }
+                let cpu = thread_cpu_ms(s.tid.load(Ordering::Relaxed));
+                let e = seen.entry(i).or_insert((t, cpu));
+                if e.0 != t {
+                    *e = (t, cpu);
+                    continue;
+                }
+                let burnt = match (e.1, cpu) {
+                    (Some(a), Some(b)) => Some(b.saturating_sub(a)),
+                    _ => None,
+                };
                 let what = s.what.lock().map(|w| w.clone()).unwrap_or_default();
                 let entry = what.split('\u{1}').next().unwrap_or("?").to_string();
-                let sig = format!("C15/{}/does-not-return-within-20s", entry);
-                let root = std::env::var("VERIF_ROOT").unwrap_or_else(|_| "/verif".into());
-                let dir = std::path::Path::new(&root).join("replays");
-                let _ = std::fs::create_dir_all(&dir);
-                let path = dir.join(format!("C15-{:016x}.json", hstr(&sig)));
-                let rec = json!({"property": "C15", "signature": sig, "lane": crate::mon::lane(), "witness": {"call": what.replace('\u{1}', " :: ")}});
-                let _ = std::fs::write(&path, serde_json::to_string_pretty(&rec).unwrap_or_default());
-                println!("VIOLATION property=C15 replay={}", path.display());
-                println!("  signature: {}", sig);
-                std::process::exit(1);
+                if burnt.map_or(false, |b| b >= 15_000) {
+                    let sig = format!("C15/{}/does-not-return-within-15s-of-cpu-time", entry);
+                    let root = std::env::var("VERIF_ROOT").unwrap_or_else(|_| "/verif".into());
+                    let dir = std::path::Path::new(&root).join("replays");
+                    let _ = std::fs::create_dir_all(&dir);
+                    let path = dir.join(format!("C15-{:016x}.json", hstr(&sig)));
+                    let rec = json!({"property": "C15", "signature": sig, "lane": crate::mon::lane(), "witness": {"call": what.replace('\u{1}', " :: "), "thread_cpu_ms_in_this_call": burnt}});
+                    let _ = std::fs::write(&path, serde_json::to_string_pretty(&rec).unwrap_or_default());
+                    println!("VIOLATION property=C15 replay={}", path.display());
+                    println!("  signature: {}", sig);
+                    std::process::exit(1);
+                }
+                if now_ms().saturating_sub(t) > 600_000 {
+                    println!("INCONCLUSIVE property=C15 reason=call-outstanding-for-10-minutes-without-using-cpu ({})", entry);
+                    std::process::exit(2);
+                }
             }
         }
     });
@@ -1172,7 +1212,7 @@ pub fn run(ctx: &Ctx) -> Outcome {
     }
     rep.finish(
         ctx,
-        "a table of the public fallible entry points (constructors, with_*, checked_*, try_*, from_timestamp*, FromStr, parse_from_*, parse_and_remainder, Parsed set_*/to_*, DurationRound, SubsecRound, to_rfc3339[_opts], StrftimeItems parse, format through write!/write_to, serde text forms) is driven with arguments drawn from integer-type extremes, range ends ±1 and random values, receivers from {MIN, MAX, MIN/MAX_UTC with ±23:59:59 offsets (wall clock in the headroom), leap seconds, epoch, random}; the main constructors additionally get the full cross product of a 32-value i32 catalogue and a 32-value u32 catalogue; format strings: every 2- and 3-byte combination of '%' with printable ASCII, truncated specifiers, multi-byte text, random strings up to 4 KiB, each iterated under a step bound of 8*len+16 items and used for formatting and parsing. Every call runs under the panic monitor, every returned value under the validity monitor, every call under a 20 s hang watchdog. Non-trivial: calls that involve an extreme argument, a range-end receiver, a leap second or a headroom wall clock; distinct = distinct (entry, argument list)",
+        "a table of the public fallible entry points (constructors, with_*, checked_*, try_*, from_timestamp*, FromStr, parse_from_*, parse_and_remainder, Parsed set_*/to_*, DurationRound, SubsecRound, to_rfc3339[_opts], StrftimeItems parse, format through write!/write_to, serde text forms) is driven with arguments drawn from integer-type extremes, range ends ±1 and random values, receivers from {MIN, MAX, MIN/MAX_UTC with ±23:59:59 offsets (wall clock in the headroom), leap seconds, epoch, random}; the main constructors additionally get the full cross product of a 32-value i32 catalogue and a 32-value u32 catalogue; format strings: every 2- and 3-byte combination of '%' with printable ASCII, truncated specifiers, multi-byte text, random strings up to 4 KiB, each iterated under a step bound of 8*len+16 items and used for formatting and parsing. Every call runs under the panic monitor, every returned value under the validity monitor, every call under a hang watchdog (15 s of the calling thread's own CPU time). Non-trivial: calls that involve an extreme argument, a range-end receiver, a leap second or a headroom wall clock; distinct = distinct (entry, argument list)",
         &["the allow-list of documented panic sites is: SubsecRound::round_subsecs when the carry leaves the range (uses the documented-to-panic `+`)", "operators and deprecated panicking constructors are not in the table"],
     )
 }
